@@ -307,6 +307,69 @@ fn c02_feedfit(ctx: &Ctx, case: u64, acc: &mut Acc) -> Verdict {
     Ok(())
 }
 
+/// Same with the harness's variable-length identities (experiment): how often does a Feed omit members that
+/// would all have fitted?
+fn c02_feedfit_var(ctx: &Ctx, case: u64, acc: &mut Acc) -> Verdict {
+    let mut r = Rng64::derive(ctx.seed, 0xC02D, case);
+    let n = r.range(3, 16) as usize;
+    let codec = *r.pick(&crate::codecs::ALL_CODECS);
+    let mlen = |i: usize| wire::encode_member(codec, &Member::new(Id::new(i as u16, 0), 0, State::Alive)).len();
+    let hlen = |a: usize, b: usize| wire::encode_header(codec, &Header { src: Id::new(a as u16, 0), src_incarnation: 0, dst: Id::new(b as u16, 0), message: Message::Feed }).len();
+    let mut mps = 0;
+    for j in 1..n {
+        let need = hlen(0, j) + 2 + (1..n).filter(|x| *x != j).map(mlen).sum::<usize>();
+        mps = mps.max(need);
+    }
+    let p = R * 3;
+    let cfg = Cfg { p, r: R, k: 2, tx: r.range(1, 3) as u8, s2d: p * 3, rda: 86_400_000_000, mps, notify_down: false, pa: None, pad: None, pg: None };
+    let mut sim = Sim::new(r.next(), codec, (1, R / 4));
+    for a in 0..n {
+        sim.add(a as u16, cfg.clone(), Renew::None, HdlCfg::disabled(), None);
+    }
+    let mut omitted = 0u64;
+    let mut feeds = 0u64;
+    let mut safety = |s: &Sim, _i: usize, rec: &CallRec| -> Result<(), V> {
+        for (to, d) in rec.sends() {
+            let Ok(pd) = wire::parse(s.codec, d) else { continue };
+            if pd.header.message != Message::Feed {
+                continue;
+            }
+            let listed = pd.members.unwrap_or_default().len();
+            let cands: Vec<Id> = rec.post.active.iter().copied().filter(|x| x != to).collect();
+            let need = pd.header_len + 2 + cands.iter().map(|c| mlen(c.addr as usize)).sum::<usize>();
+            if need <= rec.cfg_pre.mps {
+                feeds += 1;
+                if listed < cands.len() {
+                    omitted += 1;
+                }
+            }
+        }
+        Ok(())
+    };
+    let last = form(&mut sim, n, Join::SeqToFirst, 2 * p, acc, &mut safety)?;
+    sim.run_until(last + R, acc, &mut safety)?;
+    let mut unrelated = 0;
+    for i in 0..n {
+        for j in (i + 1)..n {
+            if !(sim.lists(i, j) || sim.lists(j, i)) {
+                unrelated += 1;
+            }
+        }
+    }
+    sim.run_until(last + R + (4 * n as u64 + 4) * p, acc, &mut safety)?;
+    let _ = &mut safety;
+    acc.tally("var_feeds_where_everything_fits", feeds);
+    acc.tally("var_feeds_omitting_members_although_all_fit", omitted);
+    acc.tally("var_unrelated_pairs_after_joining", unrelated);
+    if !sim.full_view() {
+        acc.tally("var_runs_without_full_view_after_bound", 1);
+        acc.note(&format!("feedfit_var case {case}: n={n} codec={codec:?} mps={mps} tx={} no full view after 4n+4 periods ({unrelated} unrelated pairs after joining)", cfg.tx));
+    }
+    acc.tally("var_runs", 1);
+    acc.nontrivial(fp(&("feedfit_var", case)));
+    Ok(())
+}
+
 // ------------------------------------------------------------------ shared formation
 
 struct Formed {
@@ -1218,6 +1281,7 @@ pub fn c02() -> Check {
         workloads: vec![
             Workload { name: "faultfree", f: c02_case, quick: 40_000, thorough: 200_000, flav: Flav::Checked },
             Workload { name: "long", f: c02_long, quick: 480, thorough: 8_000, flav: Flav::Checked },
+            Workload { name: "feedfit_var", f: c02_feedfit_var, quick: 4_800, thorough: 40_000, flav: Flav::Checked },
             Workload { name: "feedfit", f: c02_feedfit, quick: 4_800, thorough: 40_000, flav: Flav::Checked },
         ],
         exhaustive: false,
